@@ -246,6 +246,22 @@ theorem pool_delete_drops_every_manager :
        "for _, listener := range em.listeners { listener.DeleteMomentum(detailed) }"] ∧
     Gen.ChainRegistersAccountPool = true := by decide
 
+set_option maxRecDepth 100000 in
+/-- chain/momentum_events.go, the listener table (regenerated): `Register` appends; `UnRegister` removes a listener only INSIDE the
+    comparison `current == listener` - one that is not in the table removes nothing (seeded C06-r4-2: the removal moved behind the
+    loop with index 0 as default, so `Stop()` of a module that was never started took the account pool out of the table and the pool
+    was no longer told about deleted momentums); both broadcasts walk the whole table. The behaviour is examined on real nodes by the
+    pool-node stream (register / unregister traffic with probes, s_poolnode_listeners.go). -/
+theorem listener_table_shape :
+    Gen.ListenerRegisterStmts =
+      ["em.changes.Lock()", "defer em.changes.Unlock()", "em.listeners = append(em.listeners, listener)"] ∧
+    Gen.ListenerUnRegisterStmts =
+      ["em.changes.Lock()", "defer em.changes.Unlock()",
+       "for index, current := range em.listeners { if current == listener { em.listeners = append(em.listeners[:index], em.listeners[index+1:]...) break } }"] ∧
+    Gen.BroadcastInsertMomentumStmts =
+      ["em.changes.Lock()", "defer em.changes.Unlock()",
+       "for _, listener := range em.listeners { listener.InsertMomentum(detailed) }"] := by decide
+
 /-! ### what a node remembers besides its ledger (regenerated from the AST: Gen/NodeState.lean)
 
 A reorganisation replaces the ledger. Whatever else the node keeps about the chain it was on must be keyed by something that names
